@@ -142,14 +142,25 @@ type Books struct {
 	taint map[string]bool
 	// paid melt quote -> inputs submitted minus (amount + fee reserve)
 	meltPaid map[string]int64
+	// calls of the current operation in order: storage calls of the acting wallet (proxy) and client calls (transport)
+	trace []string
+	// secret -> (seed, keyset, counter) for the NUT-13 outputs derived so far
+	bySecret map[string]outRef
+	// extra transport hook (crash stream): called after the label was recorded
+	cut  func(r *WireReq, n int) error
+	nReq int
+	// trace of the last wallet API call(s), captured before any harness read
+	lastTrace []string
 }
 
 func NewBooks(c *Ctx) *Books {
 	b := &Books{c: c, net: NewNet(), signed: map[string]int{}, submitted: map[string]int{}, byB: map[string]outRef{},
 		yCache: map[string]string{}, pendGhost: map[int]map[string]string{}, faulted: map[int]bool{},
 		snaps: map[int]*wSnap{}, dirty: map[int]bool{}, taint: map[string]bool{}, meltPaid: map[string]int64{}}
+	b.bySecret = map[string]outRef{}
 	b.net.Install()
 	b.net.After = b.afterHook
+	b.net.Hook = b.hook
 	return b
 }
 
@@ -175,6 +186,51 @@ func (b *Books) AddMint(feePpk uint) (*bMint, error) {
 	m.url = b.net.AddMint(host, env)
 	b.mints = append(b.mints, m)
 	return m, nil
+}
+
+func clientLabel(method, path string) string {
+	switch {
+	case method == "GET" && path == "/v1/info":
+		return "client.GetMintInfo"
+	case method == "GET" && path == "/v1/keysets":
+		return "client.GetAllKeysets"
+	case method == "GET" && strings.HasPrefix(path, "/v1/keys/"):
+		return "client.GetKeysetById"
+	case method == "GET" && path == "/v1/keys":
+		return "client.GetActiveKeysets"
+	case method == "POST" && path == "/v1/mint/quote/bolt11":
+		return "client.PostMintQuoteBolt11"
+	case method == "GET" && strings.HasPrefix(path, "/v1/mint/quote/bolt11/"):
+		return "client.GetMintQuoteState"
+	case method == "POST" && path == "/v1/mint/bolt11":
+		return "client.PostMintBolt11"
+	case method == "POST" && path == "/v1/swap":
+		return "client.PostSwap"
+	case method == "POST" && path == "/v1/melt/quote/bolt11":
+		return "client.PostMeltQuoteBolt11"
+	case method == "GET" && strings.HasPrefix(path, "/v1/melt/quote/bolt11/"):
+		return "client.GetMeltQuoteState"
+	case method == "POST" && path == "/v1/melt/bolt11":
+		return "client.PostMeltBolt11"
+	case method == "POST" && path == "/v1/checkstate":
+		return "client.PostCheckProofState"
+	case method == "POST" && path == "/v1/restore":
+		return "client.PostRestore"
+	}
+	return "client?" + method + path
+}
+
+// hook records the client call (before the mint serves it) and lets the crash stream cut the wallet off.
+func (b *Books) hook(r *WireReq) error {
+	n := b.nReq
+	b.nReq++
+	if b.cut != nil {
+		if err := b.cut(r, n); err != nil {
+			return err
+		}
+	}
+	b.trace = append(b.trace, clientLabel(r.Method, r.Path))
+	return nil
 }
 
 // afterHook bridges Lightning between mints: when a melt is answered PAID the invoice it paid is settled at
@@ -234,6 +290,7 @@ func (b *Books) NewWallet(name string, seed, home int) (*bWallet, error) {
 	bw := &bWallet{idx: len(b.wallets), name: name, dir: dir, seed: seed, home: home, W: w}
 	b.wallets = append(b.wallets, bw)
 	b.pendGhost[bw.idx] = map[string]string{}
+	bw.Wrap(-1).sink = &b.trace
 	return bw, nil
 }
 
@@ -246,6 +303,7 @@ func (b *Books) AdoptDir(name, dir string, seed, home int) (*bWallet, error) {
 	bw := &bWallet{idx: len(b.wallets), name: name, dir: dir, seed: seed, home: home, W: w}
 	b.wallets = append(b.wallets, bw)
 	b.pendGhost[bw.idx] = map[string]string{}
+	bw.Wrap(-1).sink = &b.trace
 	return bw, nil
 }
 
@@ -260,6 +318,7 @@ func (b *Books) Reopen(w *bWallet) error {
 	}
 	w.W = nw
 	w.proxy = nil
+	w.Wrap(-1).sink = &b.trace
 	return nil
 }
 
@@ -313,6 +372,7 @@ func (b *Books) derive(seed int, ks string, upTo int) []derivedOut {
 		b.yCache[sec] = Y
 		cur = append(cur, derivedOut{secret: sec, Y: Y, B: B})
 		b.byB[B] = outRef{seed: seed, ks: ks, counter: uint32(n)}
+		b.bySecret[sec] = outRef{seed: seed, ks: ks, counter: uint32(n)}
 	}
 	s.outs[ks] = cur
 	return cur
@@ -425,6 +485,7 @@ func (b *Books) begin(kind string, w int, line string) {
 	b.opKind = kind
 	b.opW = w
 	b.hint = ""
+	b.trace = nil
 	if w >= 0 {
 		b.dirty[w] = true
 	}
@@ -485,7 +546,7 @@ func (b *Books) scanLog() {
 		}
 		for _, o := range req.Outputs {
 			if _, ok := foreign[o.Id]; !ok {
-				foreign[o.Id] = actor != nil && actor.W != nil && !actor.dead && actor.W.VerifDB().GetKeyset(o.Id) == nil
+				foreign[o.Id] = actor != nil && actor.W != nil && !actor.dead && actor.rawDB().GetKeyset(o.Id) == nil
 			}
 		}
 		for _, o := range req.Outputs {
@@ -618,7 +679,7 @@ type wSnap struct {
 func (b *Books) snap(w *bWallet) wSnap {
 	s := wSnap{spend: map[string][]uint64{}, pend: map[string][]uint64{}, counters: map[string]uint32{}, countersById: map[string]uint32{},
 		spendSecrets: map[string]cashu.Proof{}, pendSecrets: map[string]wstorage.DBProof{}}
-	db := w.W.VerifDB()
+	db := w.rawDB()
 	s.balance = w.W.GetBalance()
 	s.pendingBal = w.W.PendingBalance()
 	for _, p := range db.GetProofs() {
@@ -997,7 +1058,8 @@ type walletKilled struct{ at string }
 type WDBProxy struct {
 	wstorage.WalletDB
 	Trace  []string
-	killAt int // -1: never
+	sink   *[]string // shared per-operation trace of the Books
+	killAt int       // -1: never
 	n      int
 }
 
@@ -1008,6 +1070,9 @@ func (p *WDBProxy) pre(label string) {
 	}
 	p.n++
 	p.Trace = append(p.Trace, "db."+label)
+	if p.sink != nil {
+		*p.sink = append(*p.sink, "db."+label)
+	}
 }
 
 func (p *WDBProxy) SaveProofs(x cashu.Proofs) error {
@@ -1098,15 +1163,20 @@ func (w *bWallet) Wrap(killAt int) *WDBProxy {
 	return p
 }
 
+// rawDB is the wallet's real storage, below the proxy (harness reads do not count as calls of the wallet).
+func (w *bWallet) rawDB() wstorage.WalletDB {
+	db := w.W.VerifDB()
+	if p, ok := db.(*WDBProxy); ok {
+		return p.WalletDB
+	}
+	return db
+}
+
 // Abandon models the death of the wallet process: the bbolt file handle is closed without any further
 // wallet code running.
 func (w *bWallet) Abandon() {
 	if w.W != nil {
-		db := w.W.VerifDB()
-		if p, ok := db.(*WDBProxy); ok {
-			db = p.WalletDB
-		}
-		db.Close()
+		w.rawDB().Close()
 	}
 	w.W = nil
 }
@@ -1156,6 +1226,13 @@ func guard(f func() error) (err error, killed *walletKilled) {
 	return f(), nil
 }
 
+// run executes wallet API calls of the current operation and captures the call trace.
+func (b *Books) run(f func() error) (error, *walletKilled) {
+	err, k := guard(f)
+	b.lastTrace = append([]string(nil), b.trace...)
+	return err, k
+}
+
 func (b *Books) settle(m *bMint, request string) {
 	m.env.LN.mu.Lock()
 	if li := m.env.LN.byReq[request]; li != nil {
@@ -1173,7 +1250,7 @@ func (b *Books) setScript(m *bMint, script ...string) {
 // OpMint: RequestMint + the invoice is paid + MintTokens.
 func (b *Books) OpMint(w *bWallet, m *bMint, amount uint64) (uint64, error) {
 	var got uint64
-	err, _ := guard(func() error {
+	err, _ := b.run(func() error {
 		q, err := w.W.RequestMint(amount, m.url)
 		if err != nil {
 			return err
@@ -1188,7 +1265,7 @@ func (b *Books) OpMint(w *bWallet, m *bMint, amount uint64) (uint64, error) {
 // OpSend: Send; the proofs returned are a token the harness holds.
 func (b *Books) OpSend(w *bWallet, m *bMint, amount uint64, fees bool) (*bToken, error) {
 	var proofs cashu.Proofs
-	err, _ := guard(func() error {
+	err, _ := b.run(func() error {
 		var err error
 		proofs, err = w.W.Send(amount, m.url, fees)
 		return err
@@ -1208,7 +1285,7 @@ func (b *Books) OpSend(w *bWallet, m *bMint, amount uint64, fees bool) (*bToken,
 // OpSendLocked: SendToPubkey (P2PK, optionally SIG_ALL) to the receive key of wallet `to`.
 func (b *Books) OpSendLocked(w *bWallet, m *bMint, to *bWallet, amount uint64, sigAll, fees bool) (*bToken, error) {
 	var proofs cashu.Proofs
-	err, _ := guard(func() error {
+	err, _ := b.run(func() error {
 		var err error
 		var tags *nut11.P2PKTags
 		if sigAll {
@@ -1267,7 +1344,7 @@ func (b *Books) OpReceive(w *bWallet, t *bToken, swapToTrusted, stripDLEQ bool) 
 		}
 	}
 	var got uint64
-	err, _ := guard(func() error {
+	err, _ := b.run(func() error {
 		var err error
 		got, err = w.W.Receive(rawToken{proofs: ps, mint: b.mints[t.mint].url}, swapToTrusted)
 		return err
@@ -1282,7 +1359,7 @@ func (b *Books) OpMeltQuote(w *bWallet, m *bMint, amount uint64) (*nut05.PostMel
 		return nil, err
 	}
 	var q *nut05.PostMeltQuoteBolt11Response
-	err, _ = guard(func() error {
+	err, _ = b.run(func() error {
 		var err error
 		q, err = w.W.RequestMeltQuote(li.request, m.url)
 		return err
@@ -1311,7 +1388,7 @@ func (b *Books) meltInputs(quote string) cashu.Proofs {
 func (b *Books) OpMelt(w *bWallet, m *bMint, quote string, script []string) (string, error) {
 	b.setScript(m, script...)
 	var resp *nut05.PostMeltQuoteBolt11Response
-	err, _ := guard(func() error {
+	err, _ := b.run(func() error {
 		var err error
 		resp, err = w.W.Melt(quote)
 		return err
@@ -1349,7 +1426,7 @@ func (b *Books) OpMelt(w *bWallet, m *bMint, quote string, script []string) (str
 func (b *Books) OpCheckMelt(w *bWallet, m *bMint, quote string, script []string) (string, error) {
 	b.setScript(m, script...)
 	var resp *nut05.PostMeltQuoteBolt11Response
-	err, _ := guard(func() error {
+	err, _ := b.run(func() error {
 		var err error
 		resp, err = w.W.CheckMeltQuoteState(quote)
 		return err
@@ -1374,7 +1451,7 @@ func (b *Books) OpRemoveSpent(w *bWallet, scripts map[int][]string) error {
 	for mi, s := range scripts {
 		b.setScript(b.mints[mi], s...)
 	}
-	err, _ := guard(func() error { return w.W.RemoveSpentProofs() })
+	err, _ := b.run(func() error { return w.W.RemoveSpentProofs() })
 	for mi := range scripts {
 		b.setScript(b.mints[mi])
 	}
@@ -1394,7 +1471,7 @@ func (b *Books) OpReclaim(w *bWallet, scripts map[int][]string) (uint64, error) 
 		b.setScript(b.mints[mi], s...)
 	}
 	var got uint64
-	err, _ := guard(func() error {
+	err, _ := b.run(func() error {
 		var err error
 		got, err = w.W.ReclaimUnspentProofs()
 		return err
@@ -1447,7 +1524,7 @@ func (b *Books) pendingWithStates(w *bWallet) map[string]pendState {
 	}
 	byMint := map[int][]string{}
 	ks := map[string]string{}
-	for _, p := range w.W.VerifDB().GetPendingProofs() {
+	for _, p := range w.rawDB().GetPendingProofs() {
 		ks[p.Secret] = p.Id
 	}
 	for sec := range b.pendGhost[w.idx] {
@@ -1497,7 +1574,7 @@ func (b *Books) pendingStatesNow(w *bWallet, before map[string]pendState) map[st
 func (b *Books) OpMintSwap(w *bWallet, from, to *bMint, amount uint64, script []string) (uint64, error) {
 	b.setScript(from, script...)
 	var got uint64
-	err, _ := guard(func() error {
+	err, _ := b.run(func() error {
 		var err error
 		got, err = w.W.MintSwap(amount, from.url, to.url)
 		return err
